@@ -111,7 +111,7 @@ impl Address {
         match &self.0 {
             Value::IPv4(_) => 6,
             Value::IPv6(_) => 18,
-            Value::E164(str) => str.len() as u32,
+            Value::E164(str) => 2 + str.len() as u32,
         }
     }
 }
